@@ -299,6 +299,17 @@ impl G {
         Op::Memcopy { own, dst, src, len }
     }
 
+    fn snapshot_or_verify(&mut self) -> Op {
+        let cap = if self.big { 2 } else { MAX_SNAPSHOTS };
+        if self.snaps.len() < cap && (!self.large() || self.afford()) {
+            self.snaps.push((self.hwm, self.hp));
+            Op::Snapshot
+        } else {
+            let (addr, len) = self.range();
+            Op::Verify { addr, len }
+        }
+    }
+
     fn op(&mut self) -> Op {
         let w = self.w;
         match self.g.weighted(&w) {
@@ -359,18 +370,12 @@ impl G {
                 self.sp = 0;
                 Op::Reset
             }
-            10 => {
-                let cap = if self.big { 2 } else { MAX_SNAPSHOTS };
-                if self.snaps.len() < cap && (!self.large() || self.afford()) {
-                    self.snaps.push((self.hwm, self.hp));
-                    Op::Snapshot
-                } else {
-                    let (addr, len) = self.range();
-                    Op::Verify { addr, len }
-                }
-            }
+            10 => self.snapshot_or_verify(),
             11 => {
                 let snap = self.g.below(MAX_SNAPSHOTS as u64) as u8;
+                if self.snaps.is_empty() && self.g.chance(7, 8) {
+                    return self.snapshot_or_verify();
+                }
                 if !self.snaps.is_empty() {
                     let (shwm, shp) = self.snaps[snap as usize % self.snaps.len()];
                     // the diff walks min(stack extents) + the snapshot's heap byte by byte
@@ -391,6 +396,9 @@ impl G {
             }
             12 => {
                 let snap = self.g.below(MAX_SNAPSHOTS as u64) as u8;
+                if self.snaps.is_empty() && self.g.chance(7, 8) {
+                    return self.snapshot_or_verify();
+                }
                 if self.large() && !self.snaps.is_empty() {
                     let (shwm, shp) = self.snaps[snap as usize % self.snaps.len()];
                     if shwm + (SIZE - shp) > (1 << 20) && !self.afford() {
@@ -429,6 +437,11 @@ fn session_ops(g: &mut Rng, big: bool, heavy: u32, nops: usize) -> Vec<Op> {
         *g.pick(&[0u32, 1, 2]),   // == snapshot
         *g.pick(&[0u32, 1]),      // == after touching one byte
     ];
+    let mut w = w;
+    if big {
+        w[10] = w[10].max(2);
+        w[11] = w[11].max(4);
+    }
     let mut st = G {
         g: g.fork("ops"),
         big,
@@ -445,6 +458,13 @@ fn session_ops(g: &mut Rng, big: bool, heavy: u32, nops: usize) -> Vec<Op> {
     // most histories start like a script: some stack, often some heap
     if st.g.chance(3, 4) {
         ops.push(st.grow_stack(false));
+    }
+    if big && st.g.chance(3, 4) {
+        // a cheap rollback target from before stack and heap meet
+        if st.g.bool() {
+            ops.push(st.grow_heap(false));
+        }
+        ops.push(st.snapshot_or_verify());
     }
     while ops.len() < nops {
         let op = st.op();
